@@ -61,6 +61,11 @@ NodeClauses(T, it, nd, Rnext) ==
 
 Failures(T, i, Rnext) ==
   IF i = 1 THEN ConstructClauses(T)
+                \* strategies of the fresh minimiser (no iteration yet), read right after construction
+           \cup (IF T.exc # "" THEN {} ELSE
+                    Fail("IterationNoException", T.events[1].exc = "")
+               \cup UNION {NodeClauses(T, 0, T.events[1].nodes[k], Rnext) : k \in 1..Len(T.events[1].nodes)}
+               \cup Fail("SavedThenLoadedContinuesIdentically", T.events[1].saveload # 0))
   ELSE LET e == T.events[i] IN
           Fail("IterationNoException", e.exc = "")
      \cup (IF e.exc # "" THEN {} ELSE UNION {NodeClauses(T, i - 1, e.nodes[k], Rnext) : k \in 1..Len(e.nodes)})
